@@ -44,6 +44,11 @@ fn contexts() -> Vec<&'static str> {
         "IF {e} THEN GOSUB 100 ELSE PRINT 2",
         "READ X, A({e})",
         "READ X$",
+        "IF {e} THEN IF 1 THEN PRINT 1 ELSE PRINT 2 ELSE PRINT 3",
+        "IF 1 THEN IF {e} THEN PRINT 1 ELSE PRINT 2 ELSE PRINT 3",
+        "IF {e} THEN PRINT 1 ELSE IF 1 THEN PRINT 2 ELSE PRINT 3",
+        "IF {e} THEN GOSUB 100 ELSE GOSUB 100",
+        "IF {e} THEN FOR I = 1 TO 2 ELSE PRINT 2: NEXT I",
     ]
 }
 
@@ -269,6 +274,43 @@ pub fn run(thorough: bool) -> Report {
             t.viol.extend(acc.viol);
         }
     });
+    // Long-file pass: the verdict on a line must not depend on unrelated lines around it.
+    // Lines without jumps / functions are analysed alone and inside 150-line files.
+    let indep: Vec<&String> = jobs.iter().filter(|l| {
+        let u = l.to_uppercase();
+        !["GOTO", "GOSUB", "FN", "THEN 1", "THEN 7", "ELSE 7", "READ", "NEXT", "RETURN"].iter().any(|k| u.contains(k))
+    }).collect();
+    let long_files = std::sync::atomic::AtomicU64::new(0);
+    indep.par_chunks(150).for_each(|chunk| {
+        let lines: Vec<String> = chunk.iter().enumerate().map(|(i, l)| format!("{} {}", 10 * (i + 1), l)).collect();
+        long_files.fetch_add(1, std::sync::atomic::Ordering::Relaxed);
+        let together = match analyze(&lines) {
+            Ok(e) => e,
+            Err(p) => {
+                let mut t = total.lock().unwrap();
+                t.violating += 1;
+                t.viol.push(Violation { signature: format!("analyzer panic in a long file {}", short_panic(&p)), detail: p, case: json!({"kind":"file","text":lines.join("\n")}) });
+                return;
+            }
+        };
+        for (i, l) in lines.iter().enumerate() {
+            let alone = analyze(&[l.clone()]).unwrap_or_default();
+            let a: Vec<&String> = alone.iter().map(|(_, k)| k).collect();
+            let b: Vec<&String> = together.iter().filter(|(fl, _)| *fl == i).map(|(_, k)| k).collect();
+            if a != b {
+                let mut t = total.lock().unwrap();
+                t.violating += 1;
+                if t.viol.len() < 2000 {
+                    t.viol.push(Violation {
+                        signature: format!("verdict on a line depends on the surrounding file: alone {:?}, in a long file {:?}", a, b),
+                        detail: format!("line {:?} analysed alone reports {:?}; as line {} of a {}-line file of unrelated lines it reports {:?}", l, a, i, lines.len(), b),
+                        case: json!({"kind":"file","text":lines[..=i].join("\n")}),
+                    });
+                }
+                return;
+            }
+        }
+    });
     let acc = total.into_inner().unwrap();
     if acc.accepted == 0 || acc.rejected_straight == 0 || acc.ends.len() < 3 {
         machinery("vacuous: no accepted or no rejected programs");
@@ -298,6 +340,7 @@ pub fn run(thorough: bool) -> Report {
         "accepted": acc.accepted,
         "rejected_straight_line": acc.rejected_straight,
         "executions": acc.runs,
+        "long_files_of_150_independent_lines": long_files.load(std::sync::atomic::Ordering::Relaxed),
         "execution_outcomes_of_accepted_programs": acc.ends,
         "samples": [program("X = A$(1) = \"A\"", 1, "1"), program("IF NOT X$ THEN GOSUB 100 ELSE PRINT 2", 2, "1")],
     });
